@@ -28,6 +28,7 @@ RULE = (
     "schedule for the pool (harness-owned multiprocessing shim), plus a second (chunk size, workers, schedule, progress) variant. "
     "Oracle: stored multiset == input multiset (both directions), per-patch assignment by an independent nearest-centre computation, "
     "reopened catalog equal, variants equal. Non-trivial: n > chunk size and >= 2 patches; distinct = case digest."
+    ' Extensions: hundreds of centres on a lattice, non-contiguous patch indices up to 32767, alternative file layouts (other accepted suffixes, FITS table in extension 2 via hdu=2, HDF5 datasets inside a group).'
 )
 ASSUMPTIONS = [
     "degrees->radian conversion is compared with numpy.deg2rad of the float64 value (<= 1 ulp of the exact product)",
@@ -146,6 +147,7 @@ def case_strategy(draw):
         else:
             case["patch_num"] = draw(st.integers(1, 3))
     case["row_group"] = draw(st.sampled_from([1, 3, 7, max(1, n // 2), n])) if source == "parquet" else None
+    case["layout"] = draw(st.sampled_from(sources.FILE_LAYOUTS[source])) if source in sources.FILE_LAYOUTS else None
     case["a"] = draw(variant(n))
     case["b"] = draw(variant(n))
     # real multiprocessing cross-check; not with patch_num: the isolated child is forked from a
@@ -158,8 +160,13 @@ def create(case, var, tmp, name, tape_stats=None):
     from yaw import AngularCoordinates, Catalog
 
     table = case["table"]
-    src = sources.write_source(case["source"], table, tmp, row_group_size=case.get("row_group"))
     kw = dict(sources.column_names(table, use_pid=case["mode"] == "ids" or bool(case.get("stale_pid"))))
+    if case.get("layout"):
+        src, extra, prefix = sources.write_source(case["source"], table, tmp, row_group_size=case.get("row_group"), layout=case["layout"])
+        kw = {k: prefix + v for k, v in kw.items()}
+        kw.update(extra)
+    else:
+        src = sources.write_source(case["source"], table, tmp, row_group_size=case.get("row_group"))
     kw.update(degrees=case["degrees"], chunksize=var["chunksize"], progress=var["progress"], max_workers=var["workers"])
     if case["mode"] == "centers":
         kw["patch_centers"] = AngularCoordinates(np.array(case["centers"], dtype=float))
@@ -222,7 +229,7 @@ def run_case(case):
     table = case["table"]
     n = case["n"]
     names, exp = sources.expected_records(table, case["degrees"])
-    ck = Checker(classes=[f"source:{case['source']}", f"mode:{case['mode']}", "degrees" if case["degrees"] else "radian"] + (["centres+stale-patch-column"] if case.get("stale_pid") else []) + (["non-contiguous-patch-ids"] if case.get("sparse_ids") else []))
+    ck = Checker(classes=[f"source:{case['source']}", f"mode:{case['mode']}", "degrees" if case["degrees"] else "radian"] + (["centres+stale-patch-column"] if case.get("stale_pid") else []) + (["non-contiguous-patch-ids"] if case.get("sparse_ids") else []) + ([f"file-layout:{','.join(f'{k}={v}' for k, v in case['layout'].items())}"] if case.get("layout") else []))
     for c in ("ra", "dec"):
         ck.cls(f"dtype:{table['dtypes'][c]}")
     if case["mode"] == "centers":
